@@ -111,6 +111,19 @@ impl Prop for C07Prop {
                 Err(e) => cx.emit(&format!("all_pairs.{}", tag), format!("Err({:?})", e.kind)),
             }
             let mut rng = Rng::new(case.seed, "c07.sources");
+            // a second all_pairs call with a seeded option combination (the same in every environment of the case)
+            {
+                let t = if rng.chance(1, 2) { Some(snap.names[rng.below(n)].clone()) } else { None };
+                let c = if rng.chance(1, 2) { Some((1 + rng.below(6)) as f64 / 2.0) } else { None };
+                let fo = rng.chance(1, 2) || !wp;
+                match run!("all_pairs", dijkstra::all_pairs(g, weighted, t.clone(), c, fo, true)) {
+                    Ok(m) => {
+                        let m = algo::sp2_conv(m);
+                        cx.emit(&format!("all_pairs_opts.{}", tag), m.iter().map(|(k, v)| format!("{:?}=>{}|", k, algo::sp_bits(v))).collect());
+                    }
+                    Err(e) => cx.emit(&format!("all_pairs_opts.{}", tag), format!("Err({:?})", e.kind)),
+                }
+            }
             let srcs: Vec<String> = (0..n.min(25)).map(|_| snap.names[rng.below(n)].clone()).collect();
             let tgt = Some(snap.names[rng.below(n)].clone());
             match run!("multi_source", dijkstra::multi_source(g, weighted, srcs.clone(), tgt.clone(), None, true, true)) {
